@@ -599,3 +599,56 @@ Module ExB.
     exists rc, b. cbn [r_prov] in A2, A3. exact (conj A1 (conj A2 (conj A3 (conj A4 A5)))).
   Qed.
 End ExB.
+
+(* C06_batch_spec with [no_issue], [issued], [batch_key], [batch_req] written out
+   (the form restated in Properties/C06.v) *)
+Theorem C06_batch_spec_flat cfg s c :
+  wf_cfg cfg -> Inv cfg s -> In (height s, c) (newq s) -> height s < HEIGHT_BOUND ->
+  exists rc, get c (ctxs s) = Some rc /\
+    let E := filter_providers s rc (c_provs rc) in
+    let s' := new_one cfg s c in
+    let charge := if c_super rc then 0 else sum_prices E in
+    let untouched :=
+      reqs s' = reqs s /\ resps s' = resps s /\ bank s' = bank s /\ supply s' = supply s
+      /\ binds s' = binds s /\ vols s' = vols s
+      /\ (forall c', c' <> c -> get c' (ctxs s') = get c' (ctxs s)) in
+    (c_state rc <> Running ->
+       untouched /\ get c (ctxs s') = Some rc /\ get c (expq_h s') = None)
+    /\ (d5 rc = true ->
+          untouched /\ get c (ctxs s') = None /\ get c (expq_h s') = None)
+    /\ (c_state rc = Running -> d5 rc = false -> len E = 0 \/ len E < c_thr rc ->
+          untouched /\ get c (ctxs s') = Some (bump rc 0)
+          /\ get c (expq_h s') = Some (height s + c_timeout rc))
+    /\ (c_state rc = Running -> d5 rc = false -> 0 < len E -> c_thr rc <= len E ->
+        c_super rc = false -> bal s (User (c_cons rc)) < sum_prices E ->
+          untouched /\ get c (ctxs s') = Some (paused_ctx rc) /\ get c (expq_h s') = None)
+    /\ (c_state rc = Running -> d5 rc = false -> 0 < len E -> c_thr rc <= len E ->
+        c_super rc = true \/ sum_prices E <= bal s (User (c_cons rc)) ->
+          (forall k p price, nth_error E k = Some (p, price) ->
+             get (c, c_counter rc + 1, height s, Z.of_nat k) (reqs s')
+             = Some (mkReq p (if c_super rc then 0 else price) (height s + c_timeout rc) true))
+          /\ (forall r q, get r (reqs s') = Some q ->
+                get r (reqs s) = Some q
+                \/ exists k p price, nth_error E k = Some (p, price)
+                     /\ r = (c, c_counter rc + 1, height s, Z.of_nat k)
+                     /\ q = mkReq p (if c_super rc then 0 else price) (height s + c_timeout rc) true)
+          /\ (forall r q, get r (reqs s) = Some q -> get r (reqs s') = Some q)
+          /\ (forall a, bal s' a = bal s a - (if eqb a (User (c_cons rc)) then charge else 0)
+                                           + (if eqb a Escrow then charge else 0))
+          /\ 0 <= charge <= bal s (User (c_cons rc))
+          /\ supply s' = supply s /\ resps s' = resps s /\ binds s' = binds s /\ vols s' = vols s
+          /\ (forall c', c' <> c -> get c' (ctxs s') = get c' (ctxs s))
+          /\ get c (ctxs s') = Some (bump rc (len E))
+          /\ get c (expq_h s') = Some (height s + c_timeout rc)).
+Proof.
+  intros Hcfg Hinv Hdue Hh.
+  destruct (C06_batch_spec cfg s c Hcfg Hinv Hdue Hh) as (rc & Grc & HS). cbv zeta in HS.
+  destruct HS as (Ha & Hb & Hc & Hd & He).
+  exists rc. split; [exact Grc|]. cbv zeta.
+  split; [exact Ha|]. split; [exact Hb|]. split; [exact Hc|]. split; [exact Hd|].
+  intros H1 H2 H3 H4 H5. destruct (He H1 H2 H3 H4 H5) as (I1 & I2 & I3).
+  split; [|split; [|exact I3]].
+  - intros k p price Hk. exact (I1 k (p, price) Hk).
+  - intros r q G. destruct (I2 r q G) as [G0|(k & [p price] & Hk & Hr & Hq)]; [now left|right].
+    exists k, p, price. auto.
+Qed.
